@@ -475,8 +475,42 @@ func runWorkerFull(bin, scratch, prop, tier string, seed0 uint64, n int, deadlin
 		return next, nil // stopped at a violation; continue after it
 	default:
 		lb, _ := os.ReadFile(logPath)
-		return next, fmt.Errorf("worker exited with status %d (seeds from %d):\n%s", code, seed0, tail(string(lb), 8000))
+		log := string(lb)
+		// A fatal error of the Go runtime (unlock of unlocked mutex, concurrent
+		// map access, stack overflow, ...) in the code under test kills the
+		// worker while it runs seed `next`. That is a crash of the interpreter,
+		// not infrastructure trouble — unless the simulator's own watchdog
+		// fired. Confirm by re-running that seed alone.
+		if i := strings.Index(log, "fatal error: "); i >= 0 && !strings.Contains(log, "simrt watchdog") && n > 0 && extraEnv == nil {
+			line := log[i:]
+			if j := strings.Index(line, "\n"); j > 0 {
+				line = line[:j]
+			}
+			crashSeed := next
+			if confirmFatal(bin, scratch, prop, tier, crashSeed) {
+				f(&Result{Prop: prop, Seed: crashSeed, OK: false, Class: "fatal", Clause: "fatal",
+					Detail: "the process dies with a Go runtime " + line + "\n" + tail(log[i:], 3000), Tapes: &TapeDump{}})
+				return crashSeed + 1, nil
+			}
+		}
+		return next, fmt.Errorf("worker exited with status %d (seeds from %d):\n%s", code, seed0, tail(log, 8000))
 	}
+}
+
+// confirmFatal re-runs one seed in its own process and reports whether it
+// dies with a runtime fatal error again.
+func confirmFatal(bin, scratch, prop, tier string, seed uint64) bool {
+	cmd := exec.Command(bin, "-test.run", "^TestWorker$", "-test.timeout", "0")
+	cmd.Dir = scratch
+	cmd.Env = append(os.Environ(), "VERIF_PROP="+prop, "VERIF_TIER="+tier,
+		"VERIF_SEED0="+strconv.FormatUint(seed, 10), "VERIF_NSEEDS=1", "VERIF_OUT="+filepath.Join(scratch, "fatal-confirm.jsonl"),
+		"GOMAXPROCS=2", "TMPDIR="+filepath.Join(scratch, "tmp"), "VERIF_KNOWN_FILE="+filepath.Join(verifDir, "known-findings.json"))
+	out, err := cmd.CombinedOutput()
+	os.Remove(filepath.Join(scratch, "fatal-confirm.jsonl"))
+	if err == nil {
+		return false
+	}
+	return strings.Contains(string(out), "fatal error: ") && !strings.Contains(string(out), "simrt watchdog")
 }
 
 func runReplay(bin, scratch string, rf *ReplayFile, trace bool) (*Result, error) {
@@ -766,6 +800,19 @@ func check(id, tier string) int {
 				continue
 			}
 			seen[key] = true
+			if v.Class == "fatal" {
+				// Already confirmed by re-running the seed in a fresh process;
+				// the seed is the replay (generation is a pure function of it).
+				rf := &ReplayFile{Prop: id, Seed: v.Seed, Tier: tier, Class: v.Class, Clause: v.Clause, Detail: v.Detail}
+				os.MkdirAll(filepath.Join(verifDir, "replays"), 0o755)
+				rp := filepath.Join(verifDir, "replays", fmt.Sprintf("%s-%d.json", id, v.Seed))
+				b, _ := json.MarshalIndent(rf, "", " ")
+				os.WriteFile(rp, b, 0o644)
+				fmt.Printf("violation: property=%s seed=%d class=fatal\n  %s\n", id, v.Seed, strings.ReplaceAll(tail(rf.Detail, 1500), "\n", "\n  "))
+				violationLines = append(violationLines, fmt.Sprintf("VIOLATION property=%s replay=%s", id, rp))
+				exit = 1
+				continue
+			}
 			if v.Tapes == nil {
 				infra("violation without tapes (seed %d)", v.Seed)
 			}
@@ -882,6 +929,14 @@ func replay(path string) int {
 	scratch, bin := prepare(rf.Prop + "-replay")
 	defer cleanup(scratch)
 	os.MkdirAll(filepath.Join(scratch, "tmp"), 0o755)
+	if rf.Class == "fatal" {
+		if confirmFatal(bin, scratch, rf.Prop, rf.Tier, rf.Seed) {
+			fmt.Printf("replay: seed %d still dies with a runtime fatal error\nVIOLATION property=%s replay=%s\n", rf.Seed, rf.Prop, path)
+			return 1
+		}
+		fmt.Printf("replay of %s: property held (recorded: fatal)\n", path)
+		return 0
+	}
 	r, err := runReplay(bin, scratch, &rf, true)
 	if err != nil {
 		infra("%v", err)
